@@ -30,6 +30,7 @@ bookkeeping of MP4Tags.save (Model/Container/Mp4.lean) on a real file.
 import MutagenModel.Model.Container.Mp4
 import MutagenModel.Model.Container.Mp4M
 import MutagenModel.Model.Container.Mp4LoadM
+import MutagenModel.Model.Container.Mp4Reader
 import Driver.Util
 import Driver.FlacC
 namespace Driver
@@ -48,6 +49,20 @@ partial def pOffsets (f : Bytes) (a : PAtom) : List Nat :=
     else if a.name = nTfhd then (tfhdBase payload).toList
     else []
   own ++ (a.children.map (pOffsets f)).flatten
+
+def showTagVal : Mp4R.TagVal → String
+  | .text vs => "T:" ++ "|".intercalate (vs.map fun t => hexField (Utf8.encode t))
+  | .freeform vs => "F:" ++ "|".intercalate (vs.map fun d => s!"{d.flags}.{d.version}.{hexField d.payload}")
+  | .pairs vs => "P:" ++ "|".intercalate (vs.map fun p => s!"{p.1}/{p.2}")
+  | .ints vs => "I:" ++ "|".intercalate (vs.map fun v => s!"{v}")
+  | .bool b => "B:" ++ (if b then "1" else "0")
+  | .covers vs => "C:" ++ "|".intercalate (vs.map fun c => s!"{c.1}.{hexField c.2}")
+
+/-- `k=v;k=v` in insertion order (the harness sorts) -/
+def showTags (t : Mp4R.Tags) : String :=
+  let its := if t.items.isEmpty then "-" else ";".intercalate (t.items.map fun kv => s!"{toHex kv.1}={showTagVal kv.2}")
+  let fl := if t.failed.isEmpty then "-" else ";".intercalate (t.failed.map fun kv => s!"{toHex kv.1}=" ++ "|".intercalate (kv.2.map hexField))
+  s!"items={its} failed={fl}"
 
 def mp4Op (a : Args) : String :=
   match a.str "op" with
@@ -90,6 +105,25 @@ def mp4Op (a : Args) : String :=
         let head := match r.1 with | none => "ok" | some e => s!"err {e.name}"
         let cov := covered f atoms R.parents off old ((new.length : Int) - old) (a.nat "n" 16)
         s!"{head} off={off} old={old} newlen={new.length} covered={if cov then 1 else 0} data={hexField r.2}"
+  | "readtags" =>
+    -- mutagen's own reader (Model/Container/Mp4Reader.lean) on the children of moov.udta.meta.ilst of `data`
+    -- -> ok none | ok items=<keyhex=K:values;…> failed=<namehex=hex|hex;…> | err mutagen
+    let f := a.bytes "data"
+    match parse f with
+    | .error e => s!"err {e.name}"
+    | .ok atoms =>
+      match path? atoms ilstPath with
+      | none => "ok none"
+      | some p =>
+        match p.getLast? with
+        | none => "err mutagen"
+        | some ilst =>
+          let kids := ilst.children.map fun c => (c.name, c.length, Info.Mp4.atomRead f c)
+          if kids.any (fun k => k.2.2.isNone) then "err mutagen"
+          else
+            match Mp4R.loadTags (kids.map fun k => (k.1, k.2.1, k.2.2.getD [])) {} with
+            | none => "err mutagen"
+            | some t => "ok " ++ showTags t
   | "loadm" =>
     -- `loadM` (Model/Container/Mp4LoadM.lean): MP4(fileobj) after loadfile's read(0), without chapters, in a fault environment
     -- -> ok tags=<-|n> items=<name:len,…> | err <PyErr>   data=<hex> pos=<n> log=<calls>
